@@ -1058,13 +1058,16 @@ func replayC31(t *testing.T, rec *ev.Recorder, path string) bool {
 		var c solverCase
 		json.Unmarshal(doc.Case.Case, &c)
 		failAll(t, rec, runSolverCase(rec, c))
+	case "timed-boundary":
+		// time-relative: the whole timed part is run again (same generators, current clock)
+		failAll(t, rec, startPartD(rec)())
 	default:
 		t.Fatalf("replay file: unknown case kind %q", doc.Case.Fn)
 	}
 	return true
 }
 
-const c31Rule = "A: for every difficulty d (quick 0..18, thorough 0..26) random (subject, nonce, expiry) prefixes are swept by the harness' own SHA-256 loop until stamps with exactly d-1, d and d+1 leading zero bits are found; plus unsearched stamps, one-field tampers (alg, tag, expiry, six-field form) solved so that only that field is wrong, and the unexported bit test on synthetic digests with exactly k zero bits (d 0..26, k 0..d+10). B: rapid-generated VerifySolution cases (key, subject function, required difficulty, Expires 10 s..1 h, expiry offset class, digest exactly d-1/d/d+1 zero bits or unsearched, 19 tamper kinds) against a reference that lists every violated condition; expiry offsets stay >= 3 s from each boundary and a case whose run time comes within 1.5 s of one is inconclusive. C: solver outputs (GenerateSolution for d in {0,1,7,8,9,16,18} quick, 0..22/24/26 thorough; hashcash.Solve d 1..14). Non-trivial: accepted with at most d+1 zero bits, or rejected with exactly one violated condition (for the direct bit test: |k-d| <= 1); solver cases that produced a proof. Distinct = distinct stamp / case descriptor."
+const c31Rule = "A: for every difficulty d (quick 0..18, thorough 0..26) random (subject, nonce, expiry) prefixes are swept by the harness' own SHA-256 loop until stamps with exactly d-1, d and d+1 leading zero bits are found; plus unsearched stamps, one-field tampers (alg, tag, expiry, six-field form) solved so that only that field is wrong, and the unexported bit test on synthetic digests with exactly k zero bits (d 0..26, k 0..d+10). B: rapid-generated VerifySolution cases (key, subject function, required difficulty, Expires 10 s..1 h, expiry offset class, digest exactly d-1/d/d+1 zero bits or unsearched, 19 tamper kinds) against a reference that lists every violated condition; expiry offsets stay >= 3 s from each boundary and a case whose run time comes within 1.5 s of one is inconclusive. D: the expiry instant and the window edge with one-sided clock guards (stamp with expiry second E verified after the harness read a clock >= E+150 ms must be rejected; a call that completed >= 300 ms before E must be accepted; E = B+2*Expires built just after second boundary B must be accepted, E = B+2*Expires+1 must be rejected while the clock after the call is still < B+0.85 s), hashcash.Verify and VerifySolution, three consecutive boundary seconds, offsets spread over the second. C: solver outputs (GenerateSolution for d in {0,1,7,8,9,16,18} quick, 0..22/24/26 thorough; hashcash.Solve d 1..14). Non-trivial: accepted with at most d+1 zero bits, or rejected with exactly one violated condition (for the direct bit test: |k-d| <= 1; for just-expired cases: the call completed inside the boundary second); solver cases that produced a proof. Distinct = distinct stamp / case descriptor."
 
 func TestC31(t *testing.T) {
 	rec := ev.New(t, "C31")
@@ -1076,6 +1079,7 @@ func TestC31(t *testing.T) {
 		return
 	}
 	if ev.ReplayPath() == "" {
+		waitD := startPartD(rec) // timed boundary cases sleep on their own goroutines while part A computes
 		ts := time.Now()
 		partA(t, rec)
 		rec.Note("part_a_wall_s", time.Since(ts).Seconds())
@@ -1083,6 +1087,9 @@ func TestC31(t *testing.T) {
 		partC(t, rec)
 		rec.Note("part_c_wall_s", time.Since(ts).Seconds())
 		partBMatrix(t, rec)
+		ts = time.Now()
+		failAll(t, rec, waitD())
+		rec.Note("part_d_extra_wall_s", time.Since(ts).Seconds())
 		if solverProofs.Load() == 0 {
 			t.Fatalf("machinery: the solver produced no proof at all, the solver clause was not exercised")
 		}
